@@ -50,6 +50,13 @@ pub const CL_CONFIGS: &[&[&str]] = &[
     &["N", "N, M"],
     &["M, N"],
     &["N, "],
+    // numbers around the powers of two that other integer types end at (all fit in 64 bits), and a signed zero (not a number
+    // of octets)
+    &["4294967296"],
+    &["9223372036854775807"],
+    &["9223372036854775808"],
+    &["-0"],
+    &["0", "-0"],
 ];
 pub const TES: &[&[&str]] = &[
     &[],
@@ -147,7 +154,7 @@ fn classify_cl(cfg: &[&str], n: usize) -> (ClClass, Vec<String>) {
     let mut nums = vec![];
     for (t, v) in cfg.iter().zip(&vals) {
         match *t {
-            "N" | "M" | "18446744073709551615" => nums.push(v.parse::<u64>().unwrap()),
+            "N" | "M" | "0" | "18446744073709551615" | "4294967296" | "9223372036854775807" | "9223372036854775808" => nums.push(v.parse::<u64>().unwrap()),
             "+N" | "0N" | "N, N" | "N, " => {
                 ambiguous = true;
                 nums.push(n as u64);
@@ -184,7 +191,7 @@ fn gzip(data: &[u8]) -> Vec<u8> {
 impl Property for C03 {
     type Case = Case;
     const ID: &'static str = "C03";
-    const RULE: &'static str = "cases drawn from (thorough: all of) the product method{8} x status{16} x Content-Length configuration{33} x Transfer-Encoding{16} x \
+    const RULE: &'static str = "cases drawn from (thorough: all of) the product method{8} x status{16} x Content-Length configuration{38} x Transfer-Encoding{16} x \
 Content-Encoding{2} x bytes after the frame{3} x segmentation{3} x payload length{2}; the reference model (RFC 9112 6.3) decides the governing framing and the builder lays the body \
 out for it; outcome (Ok/Err and bytes) compared exactly. non-trivial = two framing signals in conflict, or a bodiless method/status carrying framing or coding headers, or an invalid/disagreeing \
 Content-Length; distinct by case index";
@@ -299,10 +306,14 @@ Content-Length; distinct by case index";
         // which framing governs, and what is acceptable
         let mut accept: Vec<Expect> = vec![];
         if bodiless {
+            // "an empty body whatever its headers say": a Content-Length that could never apply is a header like any other here
             accept.push(Expect::Body(vec![]));
             if matches!(cl_class, ClClass::Invalid | ClClass::Ambiguous(_)) {
+                ctx.label("bad-content-length-on-bodiless(ignored)");
+            }
+            if cl_vals.iter().any(|v| v.bytes().any(|b| b < 0x20 || b == 0x7f)) {
+                // (a control byte makes the field line itself invalid: refusing such a head is not a framing decision)
                 accept.push(Expect::SendErr);
-                ctx.label("ambiguous:bad-cl-on-bodiless");
             }
             wire.extend_from_slice(extra);
         } else if chunked {
